@@ -1667,7 +1667,7 @@ class C08(ParseProp):
                   "overflow panic and no release-build wrap), every array[i] is in bounds, both slice loops stop within len iterations. "
                   "Partial by nature for the rest: panics inside pest/regex/serde_json, stack exhaustion and wall-clock time are observed by "
                   "running arbitrary strings, near-valid mutants, extreme integers, empty/scalar/deep documents and deeply nested queries "
-                  "through every public entry point in isolated workers, in a debug build with overflow checks and in a release build. Parsing terminates for EVERY input string in the model: C08_parser_never_out_of_fuel (PegTerm.v: a PEG without left recursion whose repetition steps consume needs at most length x H + leftmost-height fuel; the rank and nullability tables are produced by the grammar translator and checked by computation against the generated grammar on every run).")
+                  "through every public entry point in isolated workers, in a debug build with overflow checks and in a release build. Parsing terminates for EVERY input string in the model: C08_parser_never_out_of_fuel (PegTerm.v: a PEG without left recursion whose repetition steps consume needs at most length x H + leftmost-height fuel; the rank and nullability tables are produced by the grammar translator and checked by computation against the generated grammar on every run). The answer of the parser model is independent of the fuel beyond that point (C08_parse_answer_independent_of_fuel): a rejection by the model is never an artefact of bounded recursion.")
     level_note = "partial: stack and time are runtime facts; unbounded recursion depth is the known finding D17 (5000 nested filters abort the process)"
     rule = ("strings: arbitrary, single-token edits of valid sentences, integer extremes (+-(2^53-1), i64 limits, beyond), nesting sweeps of "
             "queries (filters, parentheses, segments) and documents; programmatic ASTs with I-JSON-range integers; each through parse, the "
